@@ -70,6 +70,10 @@ func OpenStore(ctx context.Context, primaryType string, dataPath, indexPath stri
 	}
 	c.apply(options)
 
+	if err := checkInterruptedTranslation(indexPath); err != nil {
+		return nil, err
+	}
+
 	freeList, err := freelist.Open(indexPath + ".free")
 	if err != nil {
 		return nil, err
@@ -130,6 +134,27 @@ func OpenStore(ctx context.Context, primaryType string, dataPath, indexPath stri
 		syncOnFlush:  c.syncOnFlush,
 	}
 	return store, nil
+}
+
+// checkInterruptedTranslation returns an error if a previous change of the
+// index bit size did not complete. translateIndex moves the old index files
+// into an "old_index*" directory next to the index, moves the new files into
+// place and only then removes that directory. The moves are not atomic, so as
+// long as such a directory still holds index files the files at indexPath may
+// be an incomplete mix, and opening them would present a store that has
+// silently lost keys.
+func checkInterruptedTranslation(indexPath string) error {
+	dirs, err := filepath.Glob(filepath.Join(filepath.Dir(indexPath), "old_index*"))
+	if err != nil {
+		return err
+	}
+	for _, dir := range dirs {
+		files, _ := filepath.Glob(filepath.Join(dir, filepath.Base(indexPath)+".*"))
+		if len(files) != 0 {
+			return fmt.Errorf("index translation was interrupted: the previous index files are in %s, move them back or remove that directory", dir)
+		}
+	}
+	return nil
 }
 
 func translateIndex(ctx context.Context, indexPath string, primary primary.PrimaryStorage, indexSizeBits uint8, indexFileSize uint32) error {
